@@ -40,7 +40,8 @@ def d1(chk, prog, ks, ploidies):
             reps = [10 * (j // 2) - 5 if j % 2 == 0 else 10 * (j // 2) for j in range(2 * k + 1)]
             classes = [(c, j, False) for c in ("auto", "x", "y") for j in range(2 * k + 1)] + [(c, 0, True) for c in ("auto", "x", "y")]
             rows = [{"chromosome": chrom(c, style), "log2": OrderVal(f"v{c}{j}{'n' if nan else ''}", reps[j], None, nan=nan)} for c, j, nan in classes]
-            g = make_ga("CopyNumArray", rows, {"_classes": [c for c, _, _ in classes]})
+            # the rows keep labels that are not their positions (a filtered / re-ordered segment table)
+            g = make_ga("CopyNumArray", rows, {"_classes": [c for c, _, _ in classes]}, index="any", labels=[3 * i + 5 for i in range(len(rows))][::-1])
             out = tb.guard(lambda: it.run(THR, [g, P, thr, hap]), f"k={k} P={P} hap={hap}")
             if out is None:
                 continue
